@@ -50,7 +50,7 @@ func c14Gen(rt *rapid.T) wProg {
 	}
 	one := func(s int) wOp {
 		var op wOp
-		switch x := rapid.IntRange(0, 99).Draw(rt, "k"); {
+		switch x := gInt(rt, 0, 99, "k"); {
 		case x < 26:
 			op = wOp{K: "sub", S: s, T: topicFor(s)}
 		case x < 44:
@@ -62,25 +62,25 @@ func c14Gen(rt *rapid.T) wProg {
 		case x < 80:
 			op = wOp{K: "del", S: s, T: "g0", A: "topic", F: true}
 		case x < 84:
-			op = wOp{K: "del", S: s, T: "g0", A: "sub", U: rapid.IntRange(1, 2).Draw(rt, "tgt")}
+			op = wOp{K: "del", S: s, T: "g0", A: "sub", U: gInt(rt, 1, 2, "tgt")}
 		case x < 88:
 			op = wOp{K: "set", S: s, T: topicFor(s), A: "mode", B: gPick(rt, []string{"JRWPS", "N", "JRWP"}, "want")}
 		case x < 94:
 			op = wOp{K: "disc", S: s}
 		case x < 96:
 			// account suspension / reinstatement (acted on when the session is user 0 at root level)
-			op = wOp{K: "acc", S: s, U: rapid.IntRange(1, 2).Draw(rt, "tgt"), A: gPick(rt, []string{"susp", "ok"}, "status")}
+			op = wOp{K: "acc", S: s, U: gInt(rt, 1, 2, "tgt"), A: gPick(rt, []string{"susp", "ok"}, "status")}
 		default:
 			op = wOp{K: "note", S: s, T: topicFor(s), A: "kp"}
 		}
-		op.L = rapid.IntRange(0, 3).Draw(rt, "yield")
+		op.L = gInt(rt, 0, 3, "yield")
 		return op
 	}
-	n := rapid.IntRange(2, 8).Draw(rt, "nbatches")
+	n := gInt(rt, 2, 8, "nbatches")
 	for i := 0; i < n; i++ {
-		switch x := rapid.IntRange(0, 99).Draw(rt, "ctl"); {
+		switch x := gInt(rt, 0, 99, "ctl"); {
 		case x < 70:
-			k := rapid.IntRange(2, len(p.Sess)).Draw(rt, "npar")
+			k := gInt(rt, 2, len(p.Sess), "npar")
 			perm := rapid.Permutation(seqInts(len(p.Sess))).Draw(rt, "perm")
 			var par []wOp
 			for j := 0; j < k; j++ {
@@ -88,16 +88,16 @@ func c14Gen(rt *rapid.T) wProg {
 			}
 			p.Ops = append(p.Ops, wOp{K: "par", Par: par})
 		case x < 78:
-			s := rapid.IntRange(0, len(p.Sess)-1).Draw(rt, "s")
+			s := gInt(rt, 0, len(p.Sess)-1, "s")
 			p.Ops = append(p.Ops, wOp{K: "reconn", S: s})
 		case x < 86:
 			p.Ops = append(p.Ops, wOp{K: "tick", N: gPick(rt, []int{100, 3990, 4100, 5500}, "ms")})
 		case x < 92:
 			// slow consumer: pause one attached session, flood the topic from another one
-			s := rapid.IntRange(1, len(p.Sess)-1).Draw(rt, "slow")
+			s := gInt(rt, 1, len(p.Sess)-1, "slow")
 			p.Ops = append(p.Ops, wOp{K: "pause", S: s}, wOp{K: "flood", S: 0, T: "g0", N: 200}, wOp{K: "resume", S: s})
 		default:
-			s := rapid.IntRange(0, len(p.Sess)-1).Draw(rt, "s")
+			s := gInt(rt, 0, len(p.Sess)-1, "s")
 			p.Ops = append(p.Ops, one(s))
 		}
 	}
